@@ -26,7 +26,7 @@ fn leaf_int(ctx: &Context<'_>, id: &str, field: &str) -> i32 {
     req_of(ctx).lookup(id, field)["v"].as_str().and_then(|s| s.parse().ok()).unwrap_or(0)
 }
 
-/// The A/B/C family with one set of hints.  Parameters in the order of SLOTS in work/C20-dev/genfam.py:
+/// The A/B/C family with one set of hints.  Parameters in the order of SLOTS in checks/C20_genfam.py:
 /// Query, Query.a, .b, .c, .node, .nodes, .u, .us, .n, A, A.tag, A.x, A.peer, A.buddy, B, B.tag, B.z, C, C.tag, C.v
 macro_rules! family {
     ($m:ident; [$($q:tt)*]; [$($qa:tt)*]; [$($qb:tt)*]; [$($qc:tt)*]; [$($qnode:tt)*]; [$($qnodes:tt)*]; [$($qu:tt)*]; [$($qus:tt)*]; [$($qn:tt)*];
